@@ -403,6 +403,37 @@ def taints(ssa):
     return deficient, arrayt
 
 
+def phi_dependent(ssa):
+    """Versions whose value depends (through the SSA definitions) on a phi statement: the only way the value of a
+    node can depend on which path was taken (the known finding ctl-merge is about such nodes only)."""
+    dep = set()
+    stmts = []
+    for b in ssa[4][1:]:
+        for st in b[3]:
+            if st[0] == "subst":
+                acc = {"reads": set(), "array": False}
+                _reads(st[4], acc)
+                tgt = tuple(st[2][1:4])
+                stmts.append((tgt, acc))
+                if st[4][0] == "phi":
+                    dep.add(tgt)
+    changed = True
+    while changed:
+        changed = False
+        for tgt, acc in stmts:
+            if tgt not in dep and acc["reads"] & dep:
+                dep.add(tgt)
+                changed = True
+    return dep
+
+
+def reads_phi_dependent(ssa, pos):
+    st = stmt_at(ssa, pos)
+    acc = {"reads": set(), "array": False}
+    _reads(st, acc)
+    return bool(acc["reads"] & phi_dependent(ssa))
+
+
 def stmt_at(ssa, pos):
     b = ssa[4][1:][pos[0]]
     nphi = 0
